@@ -894,7 +894,7 @@ class t2listing(object):
 
     def next_tablename(self, tablename):
         """Returns name of table after the specified one, or None if it is the last."""
-        if tablename is None: return self._tablenames[0]
+        if tablename is None: return self._tablenames[0] if self._tablenames else None
         i = self._tablenames.index(tablename)
         if i < len(self._tablenames)-1: return self._tablenames[i+1]
         else: return None
@@ -917,7 +917,8 @@ class t2listing(object):
             else: # tables not present at first time step
                 next_tablename = self.next_tablename(last_tablename)
                 if next_tablename:
-                    self.skip_to_table(next_tablename, last_tablename, 1)
+                    # (the file is at the header of the table that is not read)
+                    self.skip_to_table(next_tablename, tablename, 1)
                     # now at the start of that table, which is read next:
                     tablename = next_tablename
                     continue
